@@ -197,9 +197,12 @@ def pointer_states(rep):
     for kind, args in (("log8", [1, 1, 1000, 2]), ("log16", [1, 1, 10**6, 2])):
         sk = SK.make(kind, *args)
         c = 40  # probabilistic range; threshold strictly between ADV and STAY
-        for entry in ("add", "ngram"):
-            for ptr in range(0, 2048):
-                for idx, expect in ((ptr, True), (ptr - 1, False), (ptr + 1, False)):
+        for entry in ("add", "ngram", "ngram3"):
+            # "ngram3": a document LONGER than n - three n-grams, three draws in a row
+            nd = 3 if entry == "ngram3" else 1
+            for ptr in range(0, 2048 - nd + 1):
+                for idx in range(ptr - 1, ptr + nd + 1):
+                    expect = ptr <= idx < ptr + nd
                     if idx < 0 or idx >= 2048:
                         continue
                     sk.rand_nums[:] = STAY
@@ -208,16 +211,20 @@ def pointer_states(rep):
                     sk.cms[0, 0] = c
                     if entry == "add":
                         sk.add(b"k", 1)
-                    else:
+                    elif entry == "ngram":
                         sk.add_ngram(b"k", 3)
-                    adv = int(sk.cms[0, 0]) != c
+                    else:
+                        sk.add_ngram(b"kkkk", 2)
+                    got = int(sk.cms[0, 0]) - c
                     n += 1
-                    if adv != expect or int(sk.rand_ptr) != ptr + 1:
+                    if got != int(expect) or int(sk.rand_ptr) != ptr + nd:
                         rep.violation(
-                            {"part": "ptr", "kind_": kind, "args": args, "entry": entry, "ptr": ptr},
-                            f"{kind} {entry}: with rand_ptr={ptr} the draw consumed is not "
-                            f"rand_nums[{ptr}] (advance={adv} with the only advancing entry at "
-                            f"{idx}) or the pointer was stored as {int(sk.rand_ptr)}, not {ptr+1}",
+                            {"part": "ptr", "kind_": kind, "args": args, "entry": entry, "ptr": ptr,
+                             "idx": idx},
+                            f"{kind} {entry}: with rand_ptr={ptr} the {nd} draw(s) consumed are not "
+                            f"rand_nums[{ptr}..{ptr+nd-1}] (counter advanced by {got} with the only "
+                            f"advancing entry at {idx}) or the pointer was stored as "
+                            f"{int(sk.rand_ptr)}, not {ptr+nd}",
                         )
                 rep.nontrivial((kind, entry, ptr))
             # pointer at the end of the batch: refill
@@ -233,7 +240,7 @@ def pointer_states(rep):
                 if entry == "add":
                     sk.add(b"k", 1)
                 else:
-                    sk.add_ngram(b"k", 3)
+                    sk.add_ngram(b"k", 3)  # one draw (ngram3's three draws are covered above)
                 new1 = sk.rand_nums.copy()
                 adv = int(sk.cms[0, 0]) != c
                 n += 1
